@@ -278,7 +278,8 @@ def run(ctx):
 
 
 META = {
-    "claimed": True,
+    "claimed": False,
+    "reason": "theorems in progress",
     "level": ("Proved in Lean for every schedule of reader / prefetch threads / short-reading server, every chunk list "
               "and every cap: prefetch buffers always hold true file content, every completed read returns exactly "
               "file[pos, pos+n) truncated at EOF (or the rest of the file), and a blocked reader always has an enabled "
